@@ -9,7 +9,7 @@ global size_of usize == 8;
 //@@ include common/triewf.vrs
 //@@ const toktrie/src/toktree.rs NO_NODE
 //@@ struct toktrie/src/toktree.rs BuilderNode
-//@@ struct toktrie/src/toktree.rs TrieBuilder fields=nodes
+//@@ struct toktrie/src/toktree.rs TrieBuilder
 
 pub type Arena = Seq<BuilderNode>;
 
@@ -119,7 +119,131 @@ pub proof fn lemma_chain_le(a: Arena, rank: Seq<nat>, c: u32, np: nat)
     }
 }
 
+/// representation invariant of the builder: a well-founded arena, every stored index valid
+pub open spec fn idx_ok(a: Arena, i: int) -> bool { a[i].last_child == NO_NODE || a[i].last_child < a.len() }
+pub open spec fn rc_ok(rc: Seq<u32>, n: int, b: int) -> bool { rc[b] == NO_NODE || rc[b] < n }
+pub open spec fn binv(t: &TrieBuilder) -> bool {
+    &&& wf_arena(t.nodes@)
+    &&& t.nodes@.len() >= 1
+    &&& forall|i: int| 0 <= i < t.nodes@.len() ==> #[trigger] idx_ok(t.nodes@, i)
+    &&& forall|b: int| 0 <= b < 256 ==> #[trigger] rc_ok(t.root_children@, t.nodes@.len() as int, b)
+}
+
+/// appending a fresh leaf and linking it from earlier nodes keeps the arena well-founded: shift every old rank by one
+pub proof fn lemma_wf_after_links(a0: Arena, a1: Arena, r0: Seq<nat>)
+    requires arena_wf(a0, r0), a1.len() == a0.len() + 1, a1.len() < 0xffff_ffff,
+        a1[a0.len() as int].first_child == NO_NODE, a1[a0.len() as int].next_sibling == NO_NODE, a1[a0.len() as int].token_id <= 0xff_ffff,
+        forall|i: int| 0 <= i < a0.len() ==> (#[trigger] a1[i]).token_id <= 0xff_ffff
+            && (a1[i].first_child == a0[i].first_child || a1[i].first_child == a0.len())
+            && (a1[i].next_sibling == a0[i].next_sibling || a1[i].next_sibling == a0.len()),
+    ensures exists|r1: Seq<nat>| arena_wf(a1, r1),
+{
+    let r1 = Seq::new(a1.len(), |i: int| if i < a0.len() { r0[i] + 1 } else { 0nat });
+    assert forall|i: int| 0 <= i < a1.len() implies #[trigger] link_ok(a1, r1, i) by {
+        if i < a0.len() { assert(link_ok(a0, r0, i)); }
+    }
+    assert(arena_wf(a1, r1));
+}
+pub proof fn lemma_wf_token_update(a0: Arena, a1: Arena, r0: Seq<nat>)
+    requires arena_wf(a0, r0), a1.len() == a0.len(),
+        forall|i: int| 0 <= i < a0.len() ==> (#[trigger] a1[i]).token_id <= 0xff_ffff
+            && a1[i].first_child == a0[i].first_child && a1[i].next_sibling == a0[i].next_sibling,
+    ensures arena_wf(a1, r0),
+{
+    assert forall|i: int| 0 <= i < a1.len() implies #[trigger] link_ok(a1, r0, i) by { assert(link_ok(a0, r0, i)); }
+}
+
 impl TrieBuilder {
+//@@ fn toktrie/src/toktree.rs TrieBuilder::new
+//@ ret r
+//@ spec
+    ensures binv(&r), r.nodes@.len() == 1,
+//@ before builder #3
+    proof {
+        let a = builder.nodes@;
+        let r0: Seq<nat> = seq![0nat];
+        assert(NO_TOKEN == 0xff_ffffu32);
+        assert(link_ok(a, r0, 0));
+        assert(arena_wf(a, r0));
+        assert forall|i: int| 0 <= i < a.len() implies #[trigger] idx_ok(a, i) by { }
+        assert forall|b: int| 0 <= b < 256 implies #[trigger] rc_ok(builder.root_children@, 1, b) by { }
+    }
+//@ end
+
+//@@ fn toktrie/src/toktree.rs TrieBuilder::insert
+//@ rewrite R7 :: for (i, &byte) in word.iter().enumerate() { ==> for i in 0..word.len() { let byte = word[i];
+//@ spec
+    requires binv(old(self)), token_id <= 0xff_ffff,
+        old(self).nodes@.len() + word@.len() < 0xffff_fff0,
+        word@.len() == 0 ==> old(self).nodes@[0].token_id == NO_TOKEN, // (the code asserts it: one empty entry at most)
+    ensures binv(final(self)), final(self).nodes@.len() <= old(self).nodes@.len() + word@.len(),
+//@ body_start
+    let ghost n0 = self.nodes@.len();
+    let ghost ae = self.nodes@;
+//@ after self.nodes[0].token_id = token_id;
+    proof {
+        let a1 = self.nodes@;
+        assert forall|k: int| 0 <= k < ae.len() implies (#[trigger] a1[k]).token_id <= 0xff_ffff
+            && a1[k].first_child == ae[k].first_child && a1[k].next_sibling == ae[k].next_sibling by {
+            assert(link_ok(ae, rk(ae), k));
+        }
+        lemma_wf_token_update(ae, a1, rk(ae));
+        assert(wf_arena(a1));
+        assert forall|k: int| 0 <= k < a1.len() implies #[trigger] idx_ok(a1, k) by { assert(idx_ok(ae, k)); }
+    }
+//@ loop 1
+    invariant
+        binv(self), curr_node_idx < self.nodes@.len(), token_id <= 0xff_ffff,
+        n0 + word@.len() < 0xffff_fff0, self.nodes@.len() <= n0 + i,
+//@ loop 2
+    invariant
+        binv(self), curr_node_idx < self.nodes@.len(), child_idx == NO_NODE || child_idx < self.nodes@.len(),
+    decreases (if child_idx == NO_NODE { 0nat } else { rk(self.nodes@)[child_idx as int] + 1 }),
+//@ before let mut child_idx = self.nodes[curr_node_idx].first_child;
+    proof { assert(arena_wf(self.nodes@, rk(self.nodes@))); assert(link_ok(self.nodes@, rk(self.nodes@), curr_node_idx as int)); }
+//@ before child_idx = child_node.next_sibling;
+    proof { assert(link_ok(self.nodes@, rk(self.nodes@), child_idx as int)); }
+//@ before let root_child_idx = self.root_children[byte as usize];
+    proof { assert(rc_ok(self.root_children@, self.nodes@.len() as int, byte as int)); }
+//@ before let new_node_idx = self.nodes.len() as u32;
+    let ghost a0 = self.nodes@;
+    let ghost rc0 = self.root_children@;
+    proof { assert(idx_ok(a0, curr_node_idx as int)); }
+//@ before curr_node_idx = new_node_idx as usize;
+    proof {
+        let a1 = self.nodes@;
+        assert(a1.len() == a0.len() + 1);
+        assert forall|k: int| 0 <= k < a0.len() implies (#[trigger] a1[k]).token_id <= 0xff_ffff
+            && (a1[k].first_child == a0[k].first_child || a1[k].first_child == a0.len())
+            && (a1[k].next_sibling == a0[k].next_sibling || a1[k].next_sibling == a0.len()) by {
+            assert(link_ok(a0, rk(a0), k));
+        }
+        lemma_wf_after_links(a0, a1, rk(a0));
+        assert(wf_arena(a1));
+        assert forall|k: int| 0 <= k < a1.len() implies #[trigger] idx_ok(a1, k) by {
+            if k < a0.len() { assert(idx_ok(a0, k)); }
+        }
+        assert forall|b: int| 0 <= b < 256 implies #[trigger] rc_ok(self.root_children@, a1.len() as int, b) by {
+            assert(rc_ok(rc0, a0.len() as int, b));
+        }
+    }
+//@ before self.nodes[curr_node_idx].token_id = token_id;
+    let ghost az = self.nodes@;
+//@ body_end
+    proof {
+        if word@.len() > 0 {
+            let a1 = self.nodes@;
+            assert forall|k: int| 0 <= k < az.len() implies (#[trigger] a1[k]).token_id <= 0xff_ffff
+                && a1[k].first_child == az[k].first_child && a1[k].next_sibling == az[k].next_sibling by {
+                assert(link_ok(az, rk(az), k));
+            }
+            lemma_wf_token_update(az, a1, rk(az));
+            assert(wf_arena(a1));
+            assert forall|k: int| 0 <= k < a1.len() implies #[trigger] idx_ok(a1, k) by { assert(idx_ok(az, k)); }
+        }
+    }
+//@ end
+
 //@@ fn toktrie/src/toktree.rs TrieBuilder::serialize_node
 //@ rewrite R8 :: let mut num_ch = 0; ==> let mut num_ch: i32 = 0;
 //@ spec
